@@ -27,7 +27,8 @@ func (b *Base85Encoder) Code() byte {
 func (b *Base85Encoder) Encode(data []byte) []byte {
 	l := ascii85.MaxEncodedLen(len(data))
 	dst := make([]byte, l)
-	ascii85.Encode(dst, data)
+	// MaxEncodedLen is only an upper bound; what lies beyond the returned length is not output
+	dst = dst[:ascii85.Encode(dst, data)]
 	for k, b := range dst {
 		if b == '.' {
 			dst[k] = 'v'
@@ -53,11 +54,16 @@ func (b *Base85Encoder) Decode(data []byte) ([]byte, error) {
 		}
 	}
 
-	dst := make([]byte, len(source))
-	ndst, _, err := ascii85.Decode(dst, source, true)
+	// A 'z' stands for four zero bytes, and the decoder stops (without an error) as soon as
+	// fewer than four bytes of room are left, so size the buffer for the worst case.
+	dst := make([]byte, 4*len(source)+4)
+	ndst, nsrc, err := ascii85.Decode(dst, source, true)
 	if err != nil {
 		err = errors.WithStack(err)
 		return nil, err
+	}
+	if nsrc != len(source) {
+		return nil, errors.Errorf("Base85: only %d of %d characters could be decoded", nsrc, len(source))
 	}
 	return dst[:ndst], nil
 }
